@@ -460,6 +460,12 @@ def programs(tier):
         lambda: [('bitshift', 1), ('diff', 0, 2, _res('a', 2, 2)), ('diff', 0, 2, _res('b', 2, 2)), ('diff', 0, 1, _res('c', 2, 1)), ('diff', 0, 1, _res('d', 2, 1)), ('quit',)])
     add('v2 blocksize change mid-stream, then predictors that use the wrapped history', dict(nmean=0, blocksize=4),
         lambda: [('diff', 1, 1, _res_mixed('a', 4, 1, 2)), ('blocksize', 2), ('diff', 2, 1, _res('b', 2, 1)), ('diff', 3, 1, _res('c', 2, 1)), ('diff', 1, 1, _res('d', 2, 1)), ('quit',)])
+    add('v1 BITSHIFT with a running mean (version 1 keeps unshifted block means)', dict(version=1, nmean=1, blocksize=2),
+        lambda: [('bitshift', 2), ('diff', 0, 2, _res('a', 2, 2)), ('diff', 0, 1, _res('b', 2, 1)), ('diff', 0, 1, _res('c', 2, 1)), ('quit',)])
+    add('v2 AU1 with a ZERO block (mu-law zero is code 0xFF)', dict(ftype=R.TYPE_AU1, nmean=0, blocksize=2),
+        lambda: [('diff', 0, 2, _res('a', 2, 2)), ('zero',), ('diff', 1, 1, _res('b', 2, 1)), ('quit',)], itemsize=2)
+    add('v2 AU2 raw with a ZERO block after BITSHIFT', dict(ftype=R.TYPE_AU2, nmean=0, blocksize=2),
+        lambda: [('bitshift', 1), ('diff', 0, 2, _res('a', 2, 2)), ('zero',), ('diff', 0, 1, _res('b', 2, 1)), ('quit',)], itemsize=1)
     if tier == 'thorough':
         add('v2 qlpc3 nmean4', dict(maxnlpc=3, nmean=4, blocksize=3), lambda: [('diff', 2, 2, _res_mixed('a', 3, 2, 2)), ('qlpc', 1, [25, -14, 4], _res_mixed('b', 3, 1, 2)), ('qlpc', 1, [-7], _res_mixed('c', 3, 1, 2)), ('quit',)])
         add('v2 2ch qlpc bitshift', dict(nchan=2, maxnlpc=1, nmean=1, blocksize=2), lambda: [('bitshift', 1), ('diff', 1, 1, _res('a', 2, 1)), ('qlpc', 1, [9], _res('b', 2, 1)),
